@@ -542,7 +542,7 @@ class Bits:
             bytelength = (length + byteoffset * 8 + offset + 7) // 8 - byteoffset
             if length + byteoffset * 8 + offset > s.seek(0, 2) * 8:
                 raise bitstring.CreationError("BytesIO object is not long enough for specified length and offset.")
-            self._bitstore = BitStore.frombytes(s.getvalue()[byteoffset: byteoffset + bytelength]).getslice(
+            self._bitstore = BitStore.frombytes(s.getvalue()[byteoffset: byteoffset + bytelength]).getslice_msb0(
                 offset, offset + length)
             return
 
@@ -580,9 +580,9 @@ class Bits:
                 if length is None:
                     if offset > len(temp):
                         raise bitstring.CreationError(f"The offset of {offset} bits is greater than the file length ({len(temp)} bits).")
-                    self._bitstore = temp.getslice(offset, None)
+                    self._bitstore = temp.getslice_msb0(offset, None)
                 else:
-                    self._bitstore = temp.getslice(offset, offset + length)
+                    self._bitstore = temp.getslice_msb0(offset, offset + length)
                     if len(self) != length or offset > len(temp):
                         raise bitstring.CreationError(f"Can't use a length of {length} bits and an offset of {offset} bits as file length is only {len(temp)} bits.")
 
